@@ -510,6 +510,8 @@ fn build_process_inputs() -> Vec<(&'static str, Vec<String>, String, String)> {
         ("rulegen: not a template", v(&["rulegen", "-t", "{D}"]), String::new(), "[1, 2".to_string()),
         ("rulegen: Properties is a list", v(&["rulegen", "-t", "{D}"]), String::new(), "{\"Resources\": {\"a\": {\"Type\": \"T::A::B\", \"Properties\": [1]}}}".to_string()),
         ("rulegen: odd type and property names", v(&["rulegen", "-t", "{D}"]), String::new(), "{\"Resources\": {\"a\": {\"Type\": \"my type!\", \"Properties\": {\"a b\": 1, \"c.d\": \"x\", \"1\": 2}}}}".to_string()),
+        ("rulegen: nested strings with escaped quotes and backslashes", v(&["rulegen", "-t", "{D}"]), String::new(), "{\"Resources\": {\"a\": {\"Type\": \"AWS::S3::Bucket\", \"Properties\": {\"Tags\": [{\"Key\": \"note\", \"Value\": \"say \\\"hi\\\" e\"}], \"M\": {\"k\": \"a\\\\\", \"e\": true, \"q\": \"\\\"\"}, \"L\": [\"\\\\\\\"e\", 1e22, \"x\\\\\"]}}}}".to_string()),
+        ("rulegen: value text ending inside a string", v(&["rulegen", "-t", "{D}"]), String::new(), "{\"Resources\": {\"a\": {\"Type\": \"AWS::S3::Bucket\", \"Properties\": {\"L\": [\"e\\\"\"], \"N\": [1e5, \"1e5\", \"\\\\\"], \"E\": [\"\", \"\\\"\\\"\", true]}}}}".to_string()),
         ("parse-tree of garbage", v(&["parse-tree", "-r", "{R}", "-p"]), "rule { { [ ((( << %".to_string(), "{}".to_string()),
         ("test with a directory without tests", v(&["test", "-d", "{DIR}"]), "rule r {\n  x exists\n}\n".to_string(), "{}".to_string()),
         ("validate with an empty rules file and stdin data", v(&["validate", "-r", "{R}"]), "".to_string(), "{\"x\": 1}".to_string()),
@@ -627,7 +629,12 @@ fn process_case(i: usize) -> CaseResult {
             // finish parsing in 10 s (time doubles per nesting level: 0.2 s at depth 14)
             return CaseResult::Fail(Failure { msg: format!("{}: parsing did not terminate within 10 s", what), sig: "c08:hang:nested-filters".into(), case });
         }
-        // a watchdog hit on anything else is inconclusive, never a violation
+        // the process computed for (nearly) the whole 90 s on an input of a few hundred bytes: a hang
+        // of its own, whatever the load of the machine (CPU time, not wall time, decides)
+        if p.cpu_s >= 60.0 {
+            return CaseResult::Fail(Failure { msg: format!("{}: the process was still computing after {:.0} CPU seconds (killed at 90 s)", what, p.cpu_s), sig: format!("c08:hang:{}", what), case });
+        }
+        // a watchdog hit without that much CPU time (waiting, starved) is inconclusive, never a violation
         return CaseResult::Discard("watchdog");
     }
     if p.crashed() {
